@@ -109,6 +109,9 @@ def string_table(ctx: Ctx, h: Harness):
     texts = {
         "US-ASCII": ("US-ASCII", b"Hi!Xyz\x00AB", "58", 1),
         "UTF-8": ("UTF-8", "aé!Xyz".encode("utf-8") + b"Z", "58", 1),
+        # single-byte code pages differ exactly in 0x80-0x9F (Windows-1252: printable; ISO-8859-1: C1 controls)
+        "Windows-1252": ("Windows-1252", b"\x80a\x9fXyz\x00AB", "58", 1),
+        "ISO-8859-1": ("ISO-8859-1", b"\x80\xe9\x9fXyz\x00AB", "58", 1),
         "UTF-16BE": ("UTF-16BE", "Hi!X".encode("utf-16-be") + b"\x00Q", "0058", 2),
         "UTF-16LE": ("UTF-16LE", "Hi!X".encode("utf-16-le") + b"Q\x00", "5800", 2),
     }
@@ -118,7 +121,7 @@ def string_table(ctx: Ctx, h: Harness):
             allbits = "1" * off + bits_of(payload) + "10110"
             data = right_padded(allbits)
             # (a) whole buffer, fixed length, also a length that is not a whole number of bytes
-            for nbits, label in ((cw * 8 * 3, "whole buffer"), (cw * 8 * 3 + 4 if enc in ("US-ASCII", "UTF-8") else None, "whole buffer, length not a multiple of 8")):
+            for nbits, label in ((cw * 8 * 3, "whole buffer"), (cw * 8 * 3 + 4 if enc in ("US-ASCII", "UTF-8", "Windows-1252", "ISO-8859-1") else None, "whole buffer, length not a multiple of 8")):
                 if nbits is None:
                     continue
                 site = f"{fi.key}::{ename}::offset {off}::{label}"
@@ -154,13 +157,15 @@ def string_table(ctx: Ctx, h: Harness):
         # (b2) the terminator is the last character of the buffer
         site = f"{fi.key}::{ename}::terminator in the last slot"
         try:
-            body = {"US-ASCII": b"AB", "UTF-8": b"AB", "UTF-16BE": "AB".encode("utf-16-be"), "UTF-16LE": "AB".encode("utf-16-le")}[ename]
+            body = {"US-ASCII": b"AB", "UTF-8": b"AB", "UTF-16BE": "AB".encode("utf-16-be"), "UTF-16LE": "AB".encode("utf-16-le"),
+                    "Windows-1252": b"\x80B", "ISO-8859-1": b"\xe9B"}[ename]
             buf = body + bytes.fromhex(term_hex)
             pkt = mk_packet(h, 0, {}, buf + b"\xff")
             kind, got = h.outcome(f"StringDataEncoding(encoding={enc!r}, fixed_raw_length={8 * len(buf)}, termination_character={term_hex!r}).parse_value(pkt)",
                                   ENC, pkt=pkt)
-            ok = kind == "ok" and str(got) == "AB" and got.attrs.get("raw_value") == buf and pkt.attrs["raw_data"].attrs.get("pos") == 8 * len(buf)
-            ctx.decide(ok, "R7.str", site, "", _why(kind, got, pkt, "AB", buf, 8 * len(buf)), where=where(fi, fi.node))
+            want_txt = body.decode(enc)
+            ok = kind == "ok" and str(got) == want_txt and got.attrs.get("raw_value") == buf and pkt.attrs["raw_data"].attrs.get("pos") == 8 * len(buf)
+            ctx.decide(ok, "R7.str", site, "", _why(kind, got, pkt, want_txt, buf, 8 * len(buf)), where=where(fi, fi.node))
         except Unsupported as e:
             ctx.unknown("R7.str", site, str(e))
     # (b3) generic UTF-16 (byte order mark) with a leading size tag whose length is not a multiple of 32 bits
